@@ -12,11 +12,16 @@
 //   /ps      rString  length 8                default "abc"
 //   /preset  rParamI  0..2                    default 0      (changing it re-initialises /dep)
 //   /dep     rParamI  0..100   default depends on /preset: 10, 20, 30
+//   /mode    rParamI  0..2     default 0, depends on /preset (a preset message resets it); changing it re-initialises /dep2 and /chain
+//   /dep2    rParamI  0..100   default depends on /preset: 1, 2, 3; depends on /mode
+//   /chain   rParamI  0..100   default 0; depends on /mode (and through it on /preset)
+//   /tg      rToggle  default false; changing it re-initialises /dep3
+//   /dep3    rParamI  0..100   default depends on /preset: 5, 6, 7; depends on /tg (two independent dependencies)
 //   /ai#3    rArrayI  0..100                  default 3 (all elements, written [3x3])
 //   /af#3    rArrayF  -0.5..0.75              default 0.25
 //   /at#2    rArrayT                          default false
 //   /sub_on  rToggle                          default true
-//   /sub/    rRecur   enabled by sub_on:   si rParamI 0..50 default 7,  sf rParamF -4..4 default 1.5, st rToggle default false
+//   /sub/    rRecur   enabled by sub_on:   si rParamI 0..50 default 7,  sf rParamF -4..4 default 1.5, st rToggle default false, sa#2 rArrayI 0..100 default [4 4]
 //   /subs#2/ rRecurs  (same Sub ports)
 //   /palloc  rToggle  default false  (true allocates the object behind /psub/, false frees it)
 //   /psub/   rRecurp  (same Sub ports), enabled by palloc
@@ -26,15 +31,17 @@
 #include <cstring>
 
 namespace app1 {
-struct Sub { int si = 7; float sf = 1.5f; bool st = false; static const rtosc::Ports ports; };
+struct Sub { int si = 7; float sf = 1.5f; bool st = false; char sa[2] = {4, 4}; static const rtosc::Ports ports; };
 struct App {
     char pc = 64; int pi = 5; int pn = 0; float pf = 0.5f; float pg = 1.0f; bool pt = false; int po = 1; char ps[8];
-    int preset = 0; int dep = 10; char ai[3]; float af[3]; bool at[2];
+    int preset = 0; int dep = 10; int mode = 0; int dep2 = 1; int chain = 0; bool tg = false; int dep3 = 5; char ai[3]; float af[3]; bool at[2];
     bool sub_on = true; Sub sub; Sub subs[2]; bool palloc = false; Sub *psub = nullptr;
     App() { strcpy(ps, "abc"); for (int i = 0; i < 3; ++i) { ai[i] = 3; af[i] = 0.25f; } at[0] = at[1] = false; }
     ~App() { delete psub; }
     App(const App &) = delete;
-    void preset_changed() { static const int d[3] = {10, 20, 30}; dep = d[preset < 0 ? 0 : preset > 2 ? 2 : preset]; }
+    void preset_changed() { static const int d[3] = {10, 20, 30}; dep = d[preset < 0 ? 0 : preset > 2 ? 2 : preset]; mode = 0; mode_changed(); tg_changed(); }   // a preset also selects mode 0
+    void tg_changed() { static const int d3[3] = {5, 6, 7}; dep3 = d3[preset < 0 ? 0 : preset > 2 ? 2 : preset]; }                                          // the toggle re-initialises its dependant
+    void mode_changed() { static const int d2[3] = {1, 2, 3}; dep2 = d2[preset < 0 ? 0 : preset > 2 ? 2 : preset]; chain = 0; }                          // a mode re-initialises its two dependants
     void palloc_changed() { if (palloc && !psub) psub = new Sub; if (!palloc && psub) { delete psub; psub = nullptr; } }
     static const rtosc::Ports ports;
 };
@@ -44,6 +51,7 @@ inline const rtosc::Ports Sub::ports = {
     rParamI(si, rLinear(0, 50), rDefault(7), "sub int"),
     rParamF(sf, rLinear(-4, 4), rDefault(1.5), "sub float"),
     rToggle(st, rDefault(false), "sub toggle"),
+    rArrayI(sa, 2, rLinear(0, 100), rDefault([4 4]), "sub int array"),      // an array port below parents whose names carry digits (/subs1/sa0)
 };
 #undef rObject
 
@@ -63,6 +71,19 @@ inline const rtosc::Ports App::ports = {
 #undef rChangeCb
 #define rChangeCb
     rParamI(dep, rLinear(0, 100), rDefaultDepends(preset), rPresets(10, 20, 30), "depends on the preset"),
+#undef rChangeCb
+#define rChangeCb obj->mode_changed();
+    rParamI(mode, rLinear(0, 2), rDefault(0), rDepends(preset), "mode (reset by a preset)"),
+#undef rChangeCb
+#define rChangeCb
+    rParamI(dep2, rLinear(0, 100), rDefaultDepends(preset), rPresets(1, 2, 3), rDepends(mode), "two dependencies: default from the preset, reset by the mode"),
+    rParamI(chain, rLinear(0, 100), rDefault(0), rDepends(mode), "depends on the mode only - and through it on the preset"),
+#undef rChangeCb
+#define rChangeCb obj->tg_changed();
+    rToggle(tg, rDefault(false), "re-initialises dep3"),
+#undef rChangeCb
+#define rChangeCb
+    rParamI(dep3, rLinear(0, 100), rDefaultDepends(preset), rPresets(5, 6, 7), rDepends(tg), "two INDEPENDENT dependencies: default from the preset, reset by the toggle"),
     rArrayI(ai, 3, rLinear(0, 100), rDefault([3x3]), "int array"),                 // a default in repeat notation
     rArrayF(af, 3, rLinear(-0.5, 0.75), rDefault([0.25 0.25 0.25]), "float array"),   // bounds that are not whole numbers
     rArrayT(at, 2, rDefault([false false]), "toggle array"),
